@@ -126,6 +126,13 @@ func c02RunBatch(m *vk.M, b int, racing bool) {
 		{Class: "conns", Method: http.MethodGet, N: 1, Timeout: fastOpt},
 		{Class: "gauge", Method: http.MethodGet, N: 2, Timeout: fastOpt},
 		{Class: "bytes", Method: http.MethodPost, N: 1, Timeout: fastOpt, MaxBytes: bytesOpt},
+		// the limit applies to the declared length whatever the method
+		{Class: "bytes-GET", Method: http.MethodGet, N: 1, Timeout: fastOpt, MaxBytes: bytesOpt},
+		{Class: "bytes-HEAD", Method: http.MethodHead, N: 1, Timeout: fastOpt, MaxBytes: bytesOpt},
+		{Class: "bytes-PUT", Method: http.MethodPut, N: 1, Timeout: fastOpt, MaxBytes: bytesOpt},
+		{Class: "bytes-PATCH", Method: http.MethodPatch, N: 1, Timeout: fastOpt, MaxBytes: bytesOpt},
+		{Class: "bytes-DELETE", Method: http.MethodDelete, N: 1, Timeout: fastOpt, MaxBytes: bytesOpt},
+		{Class: "bytes-OPTIONS", Method: http.MethodOptions, N: 1, Timeout: fastOpt, MaxBytes: bytesOpt},
 		{Class: "pv", Method: http.MethodGet, N: c02PanicAlphabetRoutes, Timeout: fastOpt},
 		{Class: "bytescfg", Method: http.MethodPost, N: 1, Timeout: fastOpt}, // no WithMaxBytes: Config.MaxBytes (zero / negative = none) applies
 	}
@@ -244,6 +251,14 @@ func c02RunBatch(m *vk.M, b int, racing bool) {
 			}
 		}
 		c02ScMaxBytes(c, e, do, rt, mb+1+r.Intn(100), true, r)
+		for _, meth := range []string{"GET", "HEAD", "PUT", "PATCH", "DELETE", "OPTIONS"} {
+			rm := e.routes["bytes-"+meth][0]
+			for _, l := range []int{mb, mb + 1, mb + 2 + r.Intn(4000)} {
+				if !c02ScMaxBytes(c, e, do, rm, l, false, r) && m.ViolCount() > 0 {
+					return
+				}
+			}
+		}
 		// the route without its own limit: governed by Config.MaxBytes alone
 		rc := e.routes["bytescfg"][0]
 		for _, l := range []int{0, int(rc.MaxBytes), int(rc.MaxBytes) + 1, mb + 6000 + r.Intn(3000)} {
